@@ -55,7 +55,8 @@ def scalar_for(conv, op, ambiguous):
 
 
 def awkward(cells):
-    return any((not c) or any(ch in c for ch in '\r\n\t"\x00|') for c in cells)
+    # lone carriage returns and NUL are not carried unchanged by the csv module / universal newlines: outside the claim
+    return any(any(ch in c for ch in '\r\x00') for c in cells)
 
 
 def build(job):
